@@ -136,6 +136,36 @@ def _ids_are_hex_ok(program, ctx, rid, prop, lower=False) -> bool:
     return okv
 
 
+def rule_hex_total(program, ctx, prop=P, rid="C01.hextotal"):
+    ctx.rule(
+        rid,
+        "ids_are_hex is all-or-nothing: every iteration over the client's ids/authors ends in the append of the checked id or in a raise (pydantic rejects the filter) - "
+        "an id that is skipped silently turns `ids: [<bad>]` into the empty list, which every backend reads as `no constraint`: the filter matches all events",
+        floor=1,
+    )
+    fn = program.func("nostr_relay.storage.base:ids_are_hex")
+    cfg = cfg_of(fn)
+    loops = [n for n, d in cfg.g.nodes(data=True) if d["kind"] == "loop"]
+    if not loops:
+        comp = [r for r in walk_no_nested(fn) if isinstance(r, ast.Return) and isinstance(r.value, (ast.ListComp, ast.GeneratorExp, ast.Call))]
+        for r in comp:
+            for g in [x for x in ast.walk(r.value) if isinstance(x, ast.comprehension)]:
+                if g.ifs:
+                    ctx.bad(finding_at(prop, rid, r, f"ids are filtered by `if {ast.unparse(g.ifs[0])[:50]}`: rejected ids are dropped silently instead of failing the filter"))
+        if comp and not any(f.rule == rid for f in ctx.findings):
+            ctx.ok(rid, comp[0], "comprehension over all ids without filter")
+        return
+    for lp in loops:
+        acc = cfg.stmt_nodes(lambda s: any(isinstance(c.func, ast.Attribute) and c.func.attr in ("append", "add") for c in own_calls(s)) or isinstance(s, ast.Raise), kinds=("stmt",))
+        body = list(cfg.succ(lp, kinds={"t"}))
+        path = cfg.find_path(body, [lp], avoid_nodes=acc, kinds=NORMAL) if body else None
+        if path:
+            last = next((cfg.ast_of(n) for n in reversed(path[:-1]) if cfg.ast_of(n) is not None), fn)
+            ctx.bad(finding_at(prop, rid, last, "an id can be skipped without being accepted or failing the filter: `ids`/`authors` shrinks, down to the empty list = no constraint", path=cfg.describe_path(path)))
+        else:
+            ctx.ok(rid, cfg.ast_of(lp) or fn, "every iteration appends or raises")
+
+
 def _per_item_ok(program, ctx, rid, prop, fn, item, mode, lower=False) -> bool:
     cfg = cfg_of(fn)
     # the item may be re-bound only by case folding (the alias keeps the mark)
@@ -891,6 +921,13 @@ def run(program, ctx):
     rule_emptylist(program, ctx)
     rule_modelconfig(program, ctx)
     rule_badfilter(program, ctx)
+    rule_hex_total(program, ctx)
+    from . import c04, c16
+
+    # the live matcher's authors/delegation clause: has_tag's first result alone says nothing about *which* delegator
+    c16.rule_hastag(program, ctx, prop=P, rid="C01.hastag")
+    # what is matched is what is sent: the frame serializer must not alter a tag value on its way out
+    c04.rule_serializer(program, ctx, c04.canonical_fields(program, ctx, ctx.rule("C01.canonical", "admission proves canonical id/pubkey/sig/created_at (input to C01.serializer)", floor=0)), prop=P, rid="C01.serializer")
     ctx.not_decided += [
         "that the assembled WHERE clause / index scan is semantically NIP-01 matching for all stores (LEFT JOIN, LIKE prefixes, scanner arithmetic)",
         "that only accepted events are in the store (C03/C06)",
